@@ -1,4 +1,10 @@
 import Driver.Ops.Run
+import Driver.Ops.Balance
+import Driver.Ops.Register
+import Driver.Ops.Rematch
+import Driver.Ops.Audit
+import Driver.Ops.Equity
+import Driver.Ops.Price
 /-! Line-protocol driver of the model: one JSON case per input line, one JSON answer per line.
     To add an op: write `Driver/Ops/<Name>.lean`, import it here, add one line to `opTable`
     (or to `outputTable` for a new output kind of op `run`). -/
@@ -6,13 +12,23 @@ open Lean Tackler Codec
 
 /-- output kinds of op `run` -/
 def outputTable : List (String × Ops.OutputFn) := [
-  ("txns", Ops.outTxns)
+  ("txns", Ops.outTxns),
+  ("balance", Ops.outBalance),
+  ("register", Ops.outRegister),
+  ("register_all", Ops.outRegisterAll),
+  ("equity", Ops.outEquity)
 ]
 
 /-- ops -/
 def opTable : List (String × (Json → R Json)) := [
   ("run", Ops.opRun outputTable),
-  ("parse", Ops.opParse)
+  ("parse", Ops.opParse),
+  ("rematch", Ops.opRematch),
+  ("peel", Ops.opPeel),
+  ("selects", Ops.opSelects),
+  ("audit", Ops.opAudit),
+  ("hash", Ops.opHash),
+  ("price", Ops.opPrice)
 ]
 
 def dispatch (j : Json) : R Json := do
